@@ -472,3 +472,150 @@ Qed.
 
 Lemma sort_deps_other d0 t : N.eqb (r_sys d0) sys_npm = false -> sort_deps (d0 :: t) = d0 :: t.
 Proof. intros H. unfold sort_deps. rewrite H. auto. Qed.
+
+(* ====================================================================== *)
+(* statements assembled for Properties/C12.v *)
+Section Assembled.
+  Variable O : oracle.
+
+  (* ascending npm order: semver then spelling, unparsable after parsable, then the
+     repositioning of the version whose tags contain the text latest *)
+  Lemma sort_npm_spec l :
+    cmp_laws (npm_parses O) (o_compare O sys_npm) ->
+    exists base,
+      Permutation base l /\ StronglySorted (npm_le O) base /\
+      (forall a b, npm_le O a b -> o_parses O sys_npm (ver b) = true -> o_parses O sys_npm (ver a) = true) /\
+      sort_npm O l = reposition O base.
+  Proof.
+    intros HL. exists (isort (npm_less O) l). repeat split.
+    - apply isort_perm.
+    - apply isort_npm_sorted; auto.
+    - apply npm_le_parsable_first.
+  Qed.
+
+  Lemma match_npm_perm req l l' :
+    cmp_laws (npm_parses O) (o_compare O sys_npm) ->
+    NoDup (map ver l) -> Permutation l l' -> match_npm O req l = match_npm O req l'.
+  Proof.
+    intros HL ND Hp. unfold match_npm. rewrite (sort_npm_perm_unique O HL l l' ND Hp). auto.
+  Qed.
+
+  Lemma match_requirement_npm_perm rk l l' :
+    N.eqb (pk_sys (vk_pkg rk)) sys_npm = true ->
+    cmp_laws (npm_parses O) (o_compare O sys_npm) ->
+    NoDup (map ver l) -> Permutation l l' ->
+    snd (match_requirement O rk l) = snd (match_requirement O rk l').
+  Proof.
+    intros Hs HL ND Hp. unfold match_requirement. rewrite Hs.
+    rewrite (match_npm_perm (vk_ver rk) l l' HL ND Hp). auto.
+  Qed.
+
+  (* a match over a slice that is in ascending order is in ascending order *)
+  Lemma match_generic_sorted sys req l :
+    StronglySorted (gen_le O sys) l -> StronglySorted (gen_le O sys) (match_generic O sys req l).
+  Proof.
+    intros H. unfold match_generic. destruct (o_constraint O sys req); apply filter_sorted; auto.
+  Qed.
+
+  Lemma sort_versions_gen_spec sys v0 t :
+    v_sys v0 = sys -> N.eqb sys sys_npm = false ->
+    cmp_laws (fun s => o_parses O sys s = true) (o_compare O sys) ->
+    Forall (gen_parses O sys) (v0 :: t) ->
+    Permutation (sort_versions O (v0 :: t)) (v0 :: t) /\ StronglySorted (gen_le O sys) (sort_versions O (v0 :: t)).
+  Proof.
+    intros Hs Hn HL HP. split; [apply sort_versions_perm|].
+    unfold sort_versions. rewrite Hs, Hn. apply isort_gen_sorted; auto.
+  Qed.
+
+  Lemma sort_versions_gen_perm_unique sys l l' :
+    N.eqb sys sys_npm = false ->
+    cmp_laws (fun s => o_parses O sys s = true) (o_compare O sys) ->
+    Forall (fun v => v_sys v = sys) l ->
+    Forall (gen_parses O sys) l -> NoDup (map ver l) -> no_equal_distinct O sys l ->
+    Permutation l l' -> sort_versions O l = sort_versions O l'.
+  Proof.
+    intros Hn HL Hsys HP ND NE Hp.
+    assert (Hsys' : Forall (fun v => v_sys v = sys) l') by (eapply Permutation_Forall; eauto).
+    destruct l as [|a t], l' as [|b t']; auto.
+    - apply Permutation_nil in Hp. discriminate.
+    - symmetry in Hp. apply Permutation_nil in Hp. discriminate.
+    - unfold sort_versions. inversion Hsys; inversion Hsys'; subst.
+      rewrite H5, Hn. apply isort_gen_perm_unique; auto.
+  Qed.
+End Assembled.
+
+(* ---------- witnesses ---------- *)
+Local Open Scope N_scope.
+Definition mk_ver (sys : N) (s : bytes) (attrs : list (Z * bytes)) : version :=
+  {| v_key := {| vk_pkg := {| pk_sys := sys; pk_name := [112] |}; vk_type := vt_concrete; vk_ver := s |};
+     v_attrs := vset_of_pairs attrs |}.
+
+(* every string parses and all versions compare equal: a lawful comparator that separates
+   nothing (what 1.0 and 1.0.0 look like to PyPI and Maven) *)
+Definition tie_oracle : oracle := {|
+  o_parses := fun _ _ => true; o_prerelease := fun _ _ => false;
+  o_compare := fun _ _ _ => 0%Z;
+  o_constraint := fun _ _ => true; o_match := fun _ _ _ => true |}.
+
+Lemma tie_oracle_laws sys : cmp_laws (fun s => o_parses tie_oracle sys s = true) (o_compare tie_oracle sys).
+Proof. split; simpl; intros; auto; lia. Qed.
+
+(* every string parses, versions compare as byte strings, every requirement is a
+   constraint that every version matches *)
+Definition all_oracle : oracle := {|
+  o_parses := fun _ _ => true; o_prerelease := fun _ _ => false;
+  o_compare := fun _ a b => bytes_compare a b;
+  o_constraint := fun _ _ => true; o_match := fun _ _ _ => true |}.
+
+Lemma all_oracle_laws sys : cmp_laws (fun s => o_parses all_oracle sys s = true) (o_compare all_oracle sys).
+Proof. apply core_laws. apply (core_weaken (fun _ => True)); [intros; exact I | apply bytes_core]. Qed.
+
+Definition w_a : version := mk_ver sys_pypi [49; 46; 48] [].          (* 1.0 *)
+Definition w_b : version := mk_ver sys_pypi [49; 46; 48; 46; 48] [].  (* 1.0.0 *)
+
+(* F-C12-1: without the side condition SortVersions depends on the order of its input *)
+Lemma sort_tie_witness :
+  Permutation [w_a; w_b] [w_b; w_a] /\ NoDup (map ver [w_a; w_b]) /\
+  sort_versions tie_oracle [w_a; w_b] <> sort_versions tie_oracle [w_b; w_a].
+Proof.
+  split; [apply perm_swap|]. split.
+  - repeat constructor; simpl; intuition discriminate.
+  - vm_compute. discriminate.
+Qed.
+
+(* F-C12-1b: MatchRequirement outside npm returns the matches in input order *)
+Definition w_req : vkey := {| vk_pkg := {| pk_sys := sys_maven; pk_name := [112] |}; vk_type := vt_requirement; vk_ver := [91;48;44;41] |}.
+Definition w_m1 : version := mk_ver sys_maven [49; 46; 48] [].   (* 1.0 *)
+Definition w_m2 : version := mk_ver sys_maven [48; 46; 57] [].   (* 0.9 *)
+
+Lemma match_raw_witness :
+  Permutation [w_m1; w_m2] [w_m2; w_m1] /\ NoDup (map ver [w_m1; w_m2]) /\
+  no_equal_distinct all_oracle sys_maven [w_m1; w_m2] /\
+  snd (match_requirement all_oracle w_req [w_m1; w_m2]) = [w_m1; w_m2] /\
+  snd (match_requirement all_oracle w_req [w_m2; w_m1]) = [w_m2; w_m1] /\
+  gen_cmp all_oracle sys_maven w_m2 w_m1 = (-1)%Z.
+Proof.
+  split; [apply perm_swap|]. split; [repeat constructor; simpl; intuition discriminate|].
+  split; [|repeat split].
+  intros a b Ha Hb E. simpl in E. apply bytes_compare_eq in E. auto.
+Qed.
+
+(* F-C12-2: a version whose tag list does not hold the tag latest is moved last *)
+Definition s_notlatest : bytes := [110;111;116] ++ s_latest.
+Definition w_n1 : version := mk_ver sys_npm [49] [(ver_tags, s_notlatest)].
+Definition w_n2 : version := mk_ver sys_npm [50] [].
+
+Lemma latest_substring_witness :
+  existsb (bytes_eqb s_latest) (split_on 44 (tags w_n1)) = false /\
+  npm_cmp all_oracle w_n1 w_n2 = (-1)%Z /\
+  sort_npm all_oracle [w_n1; w_n2] = [w_n2; w_n1].
+Proof. repeat split. Qed.
+
+(* the hypotheses of the npm statements are satisfiable by non-trivial lists: version 1 is
+   tagged latest and therefore comes last, whatever the order of the input *)
+Definition w_l1 : version := mk_ver sys_npm [49] [(ver_tags, s_latest)].
+Definition w_n3 : version := mk_ver sys_npm [51] [].
+Lemma npm_example :
+  NoDup (map ver [w_n3; w_l1; w_n2]) /\ sort_npm all_oracle [w_n3; w_l1; w_n2] = [w_n2; w_n3; w_l1] /\
+  sort_npm all_oracle [w_l1; w_n2; w_n3] = [w_n2; w_n3; w_l1].
+Proof. split; [repeat constructor; simpl; intuition discriminate | repeat split]. Qed.
